@@ -100,6 +100,8 @@ def replay_script(path, timeout=300):
     return None, out
 
 
+MAX_REPLAYS = 12  # distinct counterexamples replayed and reported per run; further ones are only counted
+
 REPLAY_HEADER = '''#!/usr/bin/env python
 """Replay of a counterexample found by /verif/check %(prop)s (obligation %(ob)s).
 Exits 1 if the violation reproduces on the chempy found under $VERIF_REPO (default /repo), 0 if not.
@@ -175,6 +177,7 @@ def main(argv=None):
     per_ob = []
     nontrivial = 0
     seen_viol = set()
+    n_skipped = 0
     for t, r in zip(tasks, results):
         st = r.get("status")
         ob = r.get("obligations", 1)
@@ -205,6 +208,9 @@ def main(argv=None):
             if key in seen_viol:
                 continue
             seen_viol.add(key)
+            if len(seen_viol) > MAX_REPLAYS:
+                n_skipped += 1
+                continue
             h = hashlib.sha1((prop + key + v["replay_src"]).encode()).hexdigest()[:10]
             path = os.path.join(VERIF, "replays", "%s_%s.py" % (prop, h))
             with open(path, "w") as fh:
@@ -274,6 +280,8 @@ def main(argv=None):
     log("== %s: obligations=%d discharged=%d inconclusive=%d violations=%d known=%d errors=%d queries=%d paths=%d "
         "solver=%.1fs wall=%.1fs" % (prop, obligations, discharged, n_inconc, n_viol, n_known, n_err, queries, paths,
                                      solver_s, wall))
+    if n_skipped:
+        log("   (%d further counterexamples were not replayed: cap %d per run)" % (n_skipped, MAX_REPLAYS))
     if n_viol:
         return 1
     if n_err:
